@@ -135,7 +135,7 @@ func fieldName(f int) string { return "f" + strconv.Itoa(f) }
 // term of a field value: order-preserving for 0 <= v < 100
 func fieldTerm(v int) string { return fmt.Sprintf("v%02d", v) }
 
-func idString(id int) string { return fmt.Sprintf("d%03d", id) }
+func idString(id int) string { return fmt.Sprintf("d%04d", id) }
 
 // encoded sort value (as found in DocumentMatch.Sort / given as search-after key)
 func keyString(ks KeySpec, v int) string {
